@@ -499,6 +499,8 @@ impl EventListenerFuture for RawWrite<'_> {
                     // Check the state again.
                     if this.lock.state.load(load_ordering) == WRITER_BIT {
                         // We are the only ones holding the lock, return `Ready`.
+                        // Stop listening: a completed future must not absorb later notifications.
+                        *this.no_readers = None;
                         this.state.as_mut().set(WriteState::Acquired);
                         return Poll::Ready(());
                     }
